@@ -14,9 +14,12 @@ Inductive c15case :=
 (* the reader returns an error together with the last byte of a chunk
    (0 = nil, 1 = io.EOF, 2 = another error); per call the observation and the
    error ReadAndSend handed back *)
-| CLRE (id : N) (sz : nat) (script : list (bytes * N)) (os : list (obs * N)) (fin : list bytes).
+| CLRE (id : N) (sz : nat) (script : list (bytes * N)) (os : list (obs * N)) (fin : list bytes)
+(* one reader used over several generations: each generation's reads, then
+   Finish (what it sent), then the same reader goes on *)
+| CLRG (id : N) (sz : nat) (gens : list (list bytes)) (res : list (list obs * list bytes)).
 
-Definition c15case_id (c : c15case) : N := match c with CLR i _ _ _ _ => i | CLRE i _ _ _ _ => i end.
+Definition c15case_id (c : c15case) : N := match c with CLR i _ _ _ _ => i | CLRE i _ _ _ _ => i | CLRG i _ _ _ => i end.
 
 Definition obsE_eqb (a b : obs * N) : bool := obs_eqb (fst a) (fst b) && N.eqb (snd a) (snd b).
 
@@ -30,6 +33,10 @@ Definition c15case_ok (c : c15case) : bool :=
   | CLRE _ sz script os fin =>
       let (os', r) := run_allE sz script in
       list_eqb obsE_eqb os' os && list_eqb bytes_eqb (finish r) fin && negb (bad r)
+  | CLRG _ sz gens res =>
+      let (res', r) := run_gens (new_lr sz) gens in
+      list_eqb (fun a b => list_eqb obs_eqb (fst a) (fst b) && list_eqb bytes_eqb (snd a) (snd b)) res' res
+      && negb (bad r)
   end.
 
 Definition mismatches (l : list c15case) : list N := failing c15case_ok c15case_id l.
